@@ -29,6 +29,28 @@ CLAIMED = {
              "extracted graphs proved equal in the kernel; the two 2^24 domains by a streamed hash against the real functions.",
         design_ref='DESIGN.md §3 C19',
         technique='Lean 4 proof (decide +kernel on full domains, omega for 24-bit) + extracted complete graphs tie + exhaustive differential check'),
+    'C05': dict(
+        text="Lean theorems over a line-faithful model of send_request's wait loop, by induction on the reply schedule (any number of 0x78 "
+             "replies): window = min(limit, deadline-now) with limit P2 then P2*, first window = min(P2, request timeout) or the per-call timeout, "
+             "final reply delivered iff every arrival is inside its window, timeout exactly at the end of the first empty window, never past the "
+             "deadline, every wait bounded. Tied to the real client by a differential suite under an exact virtual clock (stub connection), plus an "
+             "independent recomputation of the windows on the implementation. Partial by nature: real elapsed time and OS timer accuracy are outside the model.",
+        design_ref='DESIGN.md §3 C05',
+        technique='Lean 4 proof (induction over schedules) + differential correspondence under a virtual clock'),
+    'C06': dict(
+        text="Lean theorems: for every service of the table, every code byte and tail, a 0x7F frame after k in-time 0x78 frames ends the request "
+             "negative with exactly that code and name (k arbitrary, by induction); 0x78 never surfaces for any arrival list; callbacks once per 0x78 "
+             "before the next wait; delivery through the decorator keeps the verdict. Tied by a call-level differential suite over all 80 entry points x all "
+             "256 codes on the real client.",
+        design_ref='DESIGN.md §3 C06',
+        technique='Lean 4 proof (induction on number of pending replies) + exhaustive-code differential suite over all entry points'),
+    'C08': dict(
+        text="Lean theorems about the decorator model: verdict and payload-derived content identical under all 8 switch settings, raised iff switch on, "
+             "flag set iff off, other errors never swallowed, composite helpers sound when they call undecorated (and a proved counterexample when they "
+             "do not). client.py's call graph is extracted by an AST walk on every run and the kernel checks `usesResult -> undecorated` and that all 80 entry "
+             "points are managed. Tied by running every entry point x reply kinds x all 8 combinations on the real client.",
+        design_ref='DESIGN.md §3 C08',
+        technique='Lean 4 proof (case analysis) + AST-extracted call graph tie (decide) + metamorphic/differential suite over 8 switch settings'),
 }
 
 PENDING_REASON = 'check not built yet in this round (build order in DESIGN.md §7); not claimed until its theorem and tie exist'
